@@ -122,6 +122,99 @@ def u_ws_kernel(h, penalty, ws, layout=None):
             h.ensure('restricted-score-is-full-score[%d]' % idx, h.eq(a, b))
 
 
+def u_global_lipschitz_sparse(h, name, shape):
+    """get_global_lipschitz_sparse (power method on the CSC arrays) on tall AND wide designs with entries in the last row and
+    the last column: the work vectors have the design's own dimensions (for QuadraticSVC the design is (y*X)^T, features
+    x samples), no index leaves them, the result is finite and non-negative"""
+    Dm = D()
+    import skglm.datafits.single_task as STK
+    real_sn = STK.spectral_norm
+    if not getattr(h, 'unpatched', False):
+        # power method bounded to ONE iteration (its accuracy is C09's subject; here only the buffers' sizes matter)
+        STK.spectral_norm = lambda *a, **k: real_sn(*a, max_iter=1)
+    try:
+        return _u_global_lipschitz_sparse(h, Dm, name, shape)
+    finally:
+        STK.spectral_norm = real_sn
+
+
+def _u_global_lipschitz_sparse(h, Dm, name, shape):
+    # The index pattern of the power method depends only on the CSC structure and the declared row count, not on the
+    # values: the arrays are plain float arrays here (one concrete path under numpy's own bounds checks); the symbolic
+    # part of the unit is empty on purpose.
+    import scipy.sparse as sp
+    n, p = shape
+    vals = np.array([[1.0, 2.0, -1.0], [0.5, 1.0, 3.0], [2.0, -1.0, 1.0]])[:n, :p]
+    labels = np.array([1.0, -1.0, 1.0][:n])
+    yv = np.array([0.5, -1.5, 2.0][:n])
+    if name == 'QuadraticSVC':
+        df = h.datafit(Dm.QuadraticSVC)
+        Ms = sp.csc_matrix((labels[:, None] * vals).T.copy())      # (y * X)^T : p x n
+        L = df.get_global_lipschitz_sparse(Ms.data, Ms.indptr, Ms.indices, labels)
+    else:
+        if name == 'Quadratic':
+            df, y = h.datafit(Dm.Quadratic), yv
+        elif name == 'WeightedQuadratic':
+            df, y = h.datafit(Dm.WeightedQuadratic, sample_weights=np.array([1.0, 2.0, 0.5][:n])), yv
+        elif name == 'Logistic':
+            df, y = h.datafit(Dm.Logistic), labels
+        elif name == 'Huber':
+            df, y = h.datafit(Dm.Huber, delta=1.0), yv
+        Xs = sp.csc_matrix(vals)
+        L = df.get_global_lipschitz_sparse(Xs.data, Xs.indptr, Xs.indices, y)
+    h.observe('probe', 1.0)
+    h.ensure('finite-and-non-negative', bool(np.isfinite(float(L)) and float(L) >= 0))
+
+
+def u_reinitialise(h, name, sparse):
+    """one datafit object initialised on a small problem and then on a LARGER one (more features, same tasks/samples): every
+    cached array has the new problem's size -- no out-of-range access, same gradients as a fresh object"""
+    Dm = D()
+    XA, XB = X_of('corr32'), X_of('corr33')
+    n = 3
+    mk = {'Quadratic': lambda: h.datafit(Dm.Quadratic), 'QuadraticMultiTask': lambda: h.datafit(Dm.QuadraticMultiTask),
+          'WeightedQuadratic': lambda: h.datafit(Dm.WeightedQuadratic, sample_weights=h.const(np.array([1.0, 2.0, 0.5])))}[name]
+    multi = name == 'QuadraticMultiTask'
+    y = h.mat('Y', n, 2) if multi else h.vec('y', n)
+    A, B = h.const(XA), h.const(XB)
+
+    def init(df, M):
+        if sparse:
+            Ms = h.csc(M)
+            df.initialize_sparse(Ms.data, Ms.indptr, Ms.indices, y)
+            return Ms
+        df.initialize(M, y)
+        return M
+
+    def grads(df, M, Ms):
+        pB = XB.shape[1]
+        if multi:
+            W = h.mat('W', pB, 2)
+            XW = h.arr([[sum(XB[i, k] * W[k, t] for k in range(pB) if XB[i, k] != 0) for t in range(2)] for i in range(n)]) \
+                if h.mode == 'sym' else XB @ np.asarray(W, dtype=float)
+            if sparse:
+                return [v for j in range(pB) for v in df.gradient_j_sparse(Ms.data, Ms.indptr, Ms.indices, y, XW, j)]
+            return [v for j in range(pB) for v in df.gradient_j(M, y, W, XW, j)]
+        w = h.vec('w', pB)
+        Xw = h.arr([sum(XB[i, k] * w[k] for k in range(pB) if XB[i, k] != 0) for i in range(n)]) if h.mode == 'sym' \
+            else XB @ np.asarray(w, dtype=float)
+        if sparse:
+            return [df.gradient_scalar_sparse(Ms.data, Ms.indptr, Ms.indices, y, Xw, j) for j in range(pB)]
+        return [df.gradient_scalar(M, y, w, Xw, j) for j in range(pB)]
+    d1 = mk()
+    init(d1, A)
+    Ms1 = init(d1, B)
+    g1 = grads(d1, B, Ms1)
+    d2 = mk()
+    Ms2 = init(d2, B)
+    g2 = grads(d2, B, Ms2)
+    h.observe('g', g1[0])
+    same = h.true()
+    for a, b in zip(g1, g2):
+        same = h.and_(same, h.eq(a, b))
+    h.ensure('same-gradients-as-a-fresh-object', same)
+
+
 def units(tier):
     us = []
     q = tier == 'quick'
@@ -171,6 +264,12 @@ def units(tier):
         for efron in (False, True):
             us.append(Unit('C20/K/Cox-kernels[tm=%s,s=%s,efron=%s]' % (tm, sv, efron), c06.u_cox,
                            dict(tm=tm, s=sv, efron=efron, sparse_pattern=[[1, 0], [0, 1], [1, 1], [1, 1]][:len(tm)]), wall_s=60))
+    for name, shape in itertools.product(['Quadratic', 'WeightedQuadratic', 'Logistic', 'Huber', 'QuadraticSVC'], [(3, 2), (2, 3)]):
+        us.append(Unit('C20/K/global-lipschitz-sparse[%s,shape=%s]' % (name, shape), u_global_lipschitz_sparse,
+                       dict(name=name, shape=shape), wall_s=60, timeout_ms=8000, patched=True))
+    for name, sp in itertools.product(['Quadratic', 'WeightedQuadratic', 'QuadraticMultiTask'], (False, True)):
+        us.append(Unit('C20/K/reinitialise-on-a-larger-problem[%s,sparse=%s]' % (name, sp), u_reinitialise,
+                       dict(name=name, sparse=sp), wall_s=60, timeout_ms=8000))
     for pen, (lay, wss) in itertools.product(['WeightedGroupL2', 'WeightedGroupL2+'],      # (WeightedL1GroupL2 has no subdiff_distance)
                                              [([[0, 2], [1]], ([1],)), ([[0], [1, 2]], ([1],)), ([[0], [1], [2]], ([2], [0, 2]))]):
         for ws in wss:
